@@ -29,6 +29,11 @@ Proof. intros style kwargs. reflexivity. Qed.
 Lemma magic_fresh_ok : magic_merge_fresh = true.
 Proof. reflexivity. Qed.
 
+(* show() puts the object's own style back in a `finally` (utility.style_temp_edit): a failing show() cannot
+   leave the temporary resolved style on the object *)
+Lemma temp_style_ok : temp_style_restored_in_finally = true.
+Proof. reflexivity. Qed.
+
 Lemma recursion_ok : recursion_forwards_style_kwargs = true.
 Proof. reflexivity. Qed.
 
